@@ -78,13 +78,13 @@ theorem rootGt_restrict (f : νb → Option Bool) (t : Tree νr νb α) (h : t.w
 /-! ### `fromRange` / `rangeNode` -/
 
 /-- normalised range set: valid segments, consecutive ones separated by a gap -/
-def Ranges.Norm : Ranges α → Prop
+def Ranges.Norm' : Ranges α → Prop
   | [] => True
   | [s] => s.valid = true
-  | s :: t :: rest => s.valid = true ∧ Bnd.gapBefore s.hi t.lo = true ∧ Ranges.Norm (t :: rest)
+  | s :: t :: rest => s.valid = true ∧ Bnd.gapBefore s.hi t.lo = true ∧ Ranges.Norm' (t :: rest)
 
-theorem Ranges.Norm_tail {s : Ivl α} {r : Ranges α} (h : Ranges.Norm (s :: r)) :
-    s.valid = true ∧ Ranges.Norm r := by
+theorem Ranges.Norm_tail {s : Ivl α} {r : Ranges α} (h : Ranges.Norm' (s :: r)) :
+    s.valid = true ∧ Ranges.Norm' r := by
   cases r with
   | nil => exact ⟨h, trivial⟩
   | cons t rest => exact ⟨h.1, h.2.2⟩
@@ -94,7 +94,7 @@ def StartOk (cur : Bnd α) : Ranges α → Prop
   | [] => True
   | s :: _ => cur = .unb ∨ ∃ ph : Bnd α, ph.flipHi = some cur ∧ Bnd.gapBefore ph s.lo = true
 
-theorem fromRangeGo_none (r : Ranges α) :
+theorem fromRangeGo_none' (r : Ranges α) :
     (fromRangeGo none r : EdgeL νr νb α) = [] := by
   cases r <;> rfl
 
@@ -141,7 +141,7 @@ theorem Bnd.flipLo_none (slo : Bnd α) (h1 : slo.flipLo = none) : slo = .unb := 
 theorem Bnd.flipHi_ne_unb (a c : Bnd α) (h : a.flipHi = some c) : c ≠ .unb := by
   cases a <;> simp [Bnd.flipHi] at h <;> subst h <;> simp
 
-theorem Part_fromRangeGo : ∀ (r : Ranges α) (cur : Bnd α), Ranges.Norm r → StartOk cur r →
+theorem Part_fromRangeGo : ∀ (r : Ranges α) (cur : Bnd α), Ranges.Norm' r → StartOk cur r →
     PartL cur (fromRangeGo (some cur) r : EdgeL νr νb α) ∧
       AdjNe (fromRangeGo (some cur) r : EdgeL νr νb α) ∧
       (cur ≠ .unb → ∃ iv tl, (fromRangeGo (some cur) r : EdgeL νr νb α) = (iv, .leaf false) :: tl) := by
@@ -159,7 +159,7 @@ theorem Part_fromRangeGo : ∀ (r : Ranges α) (cur : Bnd α), Ranges.Norm r →
     have tail : Part s.hi.flipHi .unb (fromRangeGo s.hi.flipHi rest : EdgeL νr νb α) ∧
         AdjNe ((s, Tree.leaf true) :: (fromRangeGo s.hi.flipHi rest : EdgeL νr νb α)) := by
       cases hf : s.hi.flipHi with
-      | none => rw [fromRangeGo_none]; simp [Part, Bnd.flipHi, AdjNe]
+      | none => rw [fromRangeGo_none']; simp [Part, Bnd.flipHi, AdjNe]
       | some c =>
         have hso : StartOk c rest := by
           cases rest with
@@ -192,14 +192,14 @@ theorem Part_fromRangeGo : ∀ (r : Ranges α) (cur : Bnd α), Ranges.Norm r →
       simp only [hfl]
       exact ⟨rfl, hv, tail.1⟩
 
-theorem PartL_fromRange (r : Ranges α) (h : Ranges.Norm r) :
+theorem PartL_fromRange (r : Ranges α) (h : Ranges.Norm' r) :
     PartL .unb (fromRange r : EdgeL νr νb α) ∧ AdjNe (fromRange r : EdgeL νr νb α) := by
   have hs : StartOk (.unb : Bnd α) r := by cases r <;> simp [StartOk]
   obtain ⟨p1, p2, _⟩ := Part_fromRangeGo (νr := νr) (νb := νb) r .unb h hs
   exact ⟨p1, p2⟩
 
 /-- **`rangeNode` of a normalised range set is well-formed** -/
-theorem wf_rangeNode (v : νr) (r : Ranges α) (h : Ranges.Norm r) :
+theorem wf_rangeNode' (v : νr) (r : Ranges α) (h : Ranges.Norm' r) :
     (rangeNode v r : Tree νr νb α).wf = true := by
   obtain ⟨p1, p2⟩ := PartL_fromRange (νr := νr) (νb := νb) r h
   apply wf_createNodeR v _ p1 p2
@@ -216,7 +216,7 @@ theorem rootGt_rangeNode (k : Rank νr νb) (v : νr) (r : Ranges α) (hk : k.lt
 
 theorem wf_rangeNode_single (v : νr) (lo hi : Bnd α) (hv : (Ivl.mk lo hi).valid = true) :
     (rangeNode v [⟨lo, hi⟩] : Tree νr νb α).wf = true :=
-  wf_rangeNode v _ hv
+  wf_rangeNode' v _ hv
 
 theorem rootGt_rangeNode_single (k : Rank νr νb) (v : νr) (lo hi : Bnd α)
     (hk : k.lt (.r v) = true) : (rangeNode v [⟨lo, hi⟩] : Tree νr νb α).rootGt k = true :=
